@@ -334,7 +334,7 @@ def r5(F, R):
     R.rule("C03-R5", "state pool: exactly one unsafe block in the workspace (ManuallyDrop::take in State::drop); the push to the free list is controlled by "
                      "Rc::strong_count == 1 && Rc::weak_count == 0 of the same Rc; mutable access to a pooled point only through Rc::get_mut")
     unsafe_sites = []
-    for b in F.bodies.values():
+    for b in F.hir_bodies():
         if not b.hir or K.is_std_derive(b) or b.kind == "closure":
             continue
         for n in hir_walk(b.hir["value"]):
